@@ -6,6 +6,8 @@ pub mod c05;
 pub mod c06;
 pub mod c07;
 pub mod c08;
+pub mod c09;
+pub mod c10;
 pub mod c11;
 pub mod c12;
 pub mod c13;
@@ -26,6 +28,8 @@ pub fn lookup(id: &str) -> Option<Arc<dyn Prop>> {
         "C06" => Arc::new(c06::C06),
         "C07" => Arc::new(c07::C07),
         "C08" => Arc::new(c08::C08),
+        "C09" => Arc::new(c09::C09),
+        "C10" => Arc::new(c10::C10),
         "C11" => Arc::new(c11::C11),
         "C12" => Arc::new(c12::C12),
         "C13" => Arc::new(c13::C13),
